@@ -67,6 +67,9 @@ HandlerFor(s) ==
 WaitOf(w, attempts) ==     \* what the strategy object returns for its `attempts` argument
   CASE w.k = "fixed" -> w.a
     [] w.k = "chain" -> w.ds[Min(attempts, Len(w.ds) - 1) + 1]
+    \* wait_chain(fixed ds[1], .., fixed ds[n], wait_incrementing(a, b, c)): the selected stage gets the SAME attempt number
+    [] w.k = "chain_incr" -> IF Min(attempts, Len(w.ds)) < Len(w.ds) THEN w.ds[Min(attempts, Len(w.ds)) + 1]
+                             ELSE Max(0, Min(w.a + w.b * attempts, w.c))
     [] w.k = "exp"   -> Max(0, Min(w.a * Pow(w.b, attempts), w.c))           \* multiplier a, base b, max c
     [] w.k = "incr"  -> Max(0, Min(w.a + w.b * attempts, w.c))               \* start a, increment b, max c
     [] OTHER -> 0
